@@ -17,6 +17,9 @@ ASSUMPTIONS = ["case-sensitive matching on code points (fnmatchcase), the whole 
 
 
 # ------------------------------------------------------------------ independent matcher (shell-style, fnmatch dialect)
+RULE += " Since round 8: absolute patterns whose wildcard spans '/', and refused-removal (one payload cannot be removed: no entry is left half removed)."
+
+
 def parse_class(p, i):
     """p[i] == '[': returns (negated, set-test function, index after ']') or None when the bracket is literal"""
     j = i + 1
@@ -126,6 +129,11 @@ def gen(rng, n):
         pat = rng.choice(PATS)
         if rng.random() < 0.2 and ents:
             pat = rng.choice(ents)['full']
+        elif rng.random() < 0.15 and ents:
+            # an absolute pattern whose wildcard has to span one or more '/': a prefix of an entry's location cut anywhere, then * (or ?*)
+            full = rng.choice(ents)['full']
+            cut = rng.randint(1, max(1, len(full) - 1))
+            pat = full[:cut] + rng.choice(['*', '*', '?*', '[!/]*', '*' + full[-1:]])
         scn = lay.scenario([{'cmd': 'rm', 'argv': [pat], 'listdir': rng.choice(['sorted', 'reverse'])}], extra=nodes + scen.canary())
         scns.append(scn)
         metas.append({'pat': pat, 'ents': ents, 'mal': mal})
@@ -218,8 +226,45 @@ def run(run, thorough):
     engine.run_monitors(run, 'rm-decision-monitor', jobs, 'the rm decision monitor (Coq, C12) rejects the implementation trace: inside one trash '
                         'directory a path was removed that is neither the info nor the payload of an entry whose Path, as just read, matches',
                         'removed-without-match', silent=False)
+    # the file system refuses the removal of ONE payload (a write-protected sub-directory, an immutable file, a busy mount point): however
+    # trash-rm ends then, "payload and info together" - no entry is left as an info-less payload or a payload-less info
+    import copy, errno
+    refused = []
+    for scn, res in out[:200 if not thorough else 2000]:
+        o = res['steps'][0]
+        rem = [t for t in o['trace'] if t[0] == 'remove' and len(t) > 3 and t[3] and t[1] and '/files/' in str(t[1][0])]
+        if not rem:
+            continue
+        t = run.rng.choice(rem)
+        s = copy.deepcopy(scn)
+        # (os.remove refused, and the fallback rmtree after it as well)
+        s['steps'][0]['plan'] = {'faults': {'remove': {'errno': run.rng.choice([errno.EACCES, errno.EPERM, errno.EBUSY]), 'path': str(t[1][0])},
+                                            'rmtree': {'errno': errno.EACCES, 'path': str(t[1][0])}}}
+        s['judge_meta'] = dict(by_id[id(scn)], refused=str(t[1][0]))
+        refused.append(s)
+    for s, res in zip(refused, sandbox.execute_many(refused)):
+        if res.get('harness_error') or not res.get('steps'):
+            continue
+        judge_refused(run, s, res)
     if out:
         run.sample({'level': 'state', 'pattern': esc(metas[0]['pat']), 'entries': [esc(e['full']) for e in metas[0]['ents']]})
+
+
+def judge_refused(run, scn, res, section='refused-removal'):
+    run.count(section)
+    before, o = res['before'], res['steps'][0]
+    after = o['after']
+    meta = scn['judge_meta']
+    case = {'scenario': scn, 'pattern': esc(meta['pat']), 'refused': esc(meta['refused']), 'exit': o['exit'], 'stderr': o['stderr'][-300:]}
+    for e in meta['ents']:
+        ib, ia = engine.entries_of(before, e['td']).get(e['name']), engine.entries_of(after, e['td']).get(e['name'])
+        if ib is None or ib['payload'] is None or ib['info'] is None or ia is None:
+            continue
+        if (ia['payload'] is None) != (ia['info'] is None):
+            run.fail('oracle', 'the file system refused the removal of a payload: trash-rm left an entry half removed (%s)' %
+                     ('its .trashinfo is gone, the payload is still there' if ia['info'] is None else 'its payload is gone, the .trashinfo is still there'),
+                     dict(case, entry=esc(e['full'])), key='half-entry', section=section)
+    run.nontriv(('rm-refused', o['exit'], o['exc'] is not None))
 
 
 def replay(run, payload):
@@ -248,6 +293,9 @@ def replay(run, payload):
                 vol = '/' if 'share/Trash' in td else os.path.dirname(td if '/.Trash-' in td else os.path.dirname(td))
                 ents.append({'td': td, 'name': e[1].split('/info/')[1][:-10], 'full': p if p.startswith('/') else os.path.join(vol, p)})
     if scn.get('judge_meta'):
+        if scn['judge_meta'].get('refused'):
+            judge_refused(run, scn, res, 'replay')
+            return
         judge(run, scn, scn['judge_meta'], res)
         return
     judge(run, scn, {'pat': scn['steps'][0]['argv'][0], 'ents': ents}, res)
